@@ -688,6 +688,92 @@ pub fn check_cli_failure(c: &CliFailCase, info: &mut CaseInfo) -> Result<(), Str
 	r
 }
 
+// ---------------------------------------------------------------------------------------------
+// What the library itself writes to the process's standard streams while keys are loaded and used.
+
+/// `rv c19-child`: reads a JSON array of key specs; loads each key through the route its index
+/// selects, exports the public parts and signs with it. Prints nothing itself.
+pub fn child_main() {
+	let mut s = String::new();
+	std::io::Read::read_to_string(&mut std::io::stdin(), &mut s).expect("stdin");
+	let specs: Vec<KeySpec> = serde_json::from_str(&s).expect("child input");
+	for ks in specs {
+		let Ok(key) = keys::make_key(&ks) else { continue };
+		let _ = key.public_key_der();
+		let _ = key.public_key_pem();
+		let _ = key.algorithm();
+		let _ = format!("{key:?}");
+		let mut spec = CertSpec::minimal();
+		spec.is_ca = IsCaSpec::CaUnconstrained;
+		if let Ok(cert) = crate::mk::cert_params(&spec).unwrap().self_signed(&key) {
+			let _ = cert.pem();
+			let crl = CrlSpec {
+				this_update: TimeSpec { unix: 1_600_000_000, nanos: 0, offset: 0 },
+				next_update: TimeSpec { unix: 1_700_000_000, nanos: 0, offset: 0 },
+				crl_number: Hex(vec![1]),
+				idp: None,
+				revoked: vec![],
+				kid: KidSpec::Pre(Hex(vec![1])),
+			};
+			let _ = crate::mk::crl_params(&crl).unwrap().signed_by(&cert, &key);
+		}
+		let mut cs = CertSpec::minimal();
+		cs.serial = None;
+		let _ = crate::mk::cert_params(&cs).unwrap().serialize_request(&key);
+		// the explicit export is computed (it may be cached or converted on the way) but not printed
+		if key.as_remote().is_none() {
+			let _ = key.serialize_der();
+			let pem = key.serialize_pem();
+			#[cfg(feature = "crypto")]
+			{
+				let _ = rcgen::KeyPair::from_pem(&pem);
+			}
+			let _ = pem;
+		}
+	}
+}
+
+#[derive(Clone, Debug, Serialize, Deserialize, PartialEq, Eq, Hash)]
+pub struct ProcessOutputCase {
+	pub keys: Vec<KeySpec>,
+}
+
+pub fn check_process_output(c: &ProcessOutputCase, info: &mut CaseInfo) -> Result<(), String> {
+	use std::io::Write;
+	info.nontrivial = true;
+	let keys_local: Vec<KeySpec> = c.keys.iter().map(|k| KeySpec { remote: false, ..*k }).collect();
+	for k in &keys_local {
+		info.class(format!("route:{}", (k.idx as usize / keys::fixtures().pools[&k.alg].len()) % keys::LOADER_ROUTES));
+	}
+	let exe = std::env::current_exe().map_err(|e| e.to_string())?;
+	let mut child = std::process::Command::new(&exe)
+		.arg("c19-child")
+		.stdin(std::process::Stdio::piped())
+		.stdout(std::process::Stdio::piped())
+		.stderr(std::process::Stdio::piped())
+		.spawn()
+		.map_err(|e| format!("INTERNAL: cannot spawn child: {e}"))?;
+	child.stdin.take().unwrap().write_all(serde_json::to_string(&keys_local).unwrap().as_bytes()).map_err(|e| format!("INTERNAL: {e}"))?;
+	let out = child.wait_with_output().map_err(|e| format!("INTERNAL: {e}"))?;
+	if !out.status.success() {
+		return Err(format!("INTERNAL: the child process failed: {}", String::from_utf8_lossy(&out.stderr).chars().take(300).collect::<String>()));
+	}
+	for k in &keys_local {
+		let fx = keys::fixture(k);
+		let sc = Scanner::new(&secrets_of(&fx.pk8)?);
+		for (name, bytes) in [("standard output", &out.stdout), ("standard error", &out.stderr)] {
+			if let Some(form) = sc.scan(bytes) {
+				return Err(format!(
+					"loading and using a {:?} key (route {}) makes the library write private key material to the process's {name} in {form} form",
+					k.alg,
+					(k.idx as usize / keys::fixtures().pools[&k.alg].len()) % keys::LOADER_ROUTES
+				));
+			}
+		}
+	}
+	Ok(())
+}
+
 fn cli_fail_case() -> BoxedStrategy<CliFailCase> {
 	(
 		prop::sample::select(vec!["ring".to_string(), "aws".to_string()]),
@@ -709,7 +795,7 @@ fn cli_fail_case() -> BoxedStrategy<CliFailCase> {
 pub fn def() -> PropertyDef {
 	PropertyDef {
 		id: "C19",
-		rule: "Every fixture key algorithm of this back end; the secret components (EC scalar, Ed25519 seed, RSA d/p/q/dP/dQ/qInv) are cut out of the PKCS#8 by the harness reader and every output channel is scanned for any 16-byte window of any component in raw, hexadecimal (either case, separators), decimal-list and base64 (all four alignments) form: der()/pem() and Debug of certificates, CSRs, CSR parameters, CRLs, exported public keys, Debug of KeyPair and SubjectPublicKeyInfo; error paths: the key under every wrong algorithm through every entry point, 0..8 DER mutations, 0..3 PEM text edits (line deleted/duplicated, blank or space line inserted, label changed, header added, truncated, character replaced, CRLF, joined lines, garbage prepended) through all PEM loaders and through the certificate/CSR/SPKI parsers, alone and bundled before / after a certificate or a request. The command line tool (both builds) is run into obstructed output locations (a directory where one of the four files should go, --output naming a regular file) and with invalid options: what it prints must contain no private key block, no base64 text that decodes to a private key, and no material of a key it did write. The explicit export functions are the only exempt channel (and the scanner must find the key there). Non-trivial = artefact case, or an error-path case with at least one error text.",
+		rule: "Every fixture key algorithm of this back end; the secret components (EC scalar, Ed25519 seed, RSA d/p/q/dP/dQ/qInv) are cut out of the PKCS#8 by the harness reader and every output channel is scanned for any 16-byte window of any component in raw, hexadecimal (either case, separators), decimal-list and base64 (all four alignments) form: der()/pem() and Debug of certificates, CSRs, CSR parameters, CRLs, exported public keys, Debug of KeyPair and SubjectPublicKeyInfo; error paths: the key under every wrong algorithm through every entry point, 0..8 DER mutations, 0..3 PEM text edits (line deleted/duplicated, blank or space line inserted, label changed, header added, truncated, character replaced, CRLF, joined lines, garbage prepended) through all PEM loaders and through the certificate/CSR/SPKI parsers, alone and bundled before / after a certificate or a request. The command line tool (both builds) is run into obstructed output locations (a directory where one of the four files should go, --output naming a regular file) and with invalid options: what it prints must contain no private key block, no base64 text that decodes to a private key, and no material of a key it did write. Fresh child processes load keys through every route, export public parts and sign; their standard output and standard error (where stray diagnostics of the library would land) are scanned too. The explicit export functions are the only exempt channel (and the scanner must find the key there). Non-trivial = artefact case, or an error-path case with at least one error text.",
 		assumptions: vec!["a leak is a contiguous window of >= 16 bytes of a secret component in one of the four renderings", "the harness reader extracts the secret components correctly (the scanner is checked against the explicit export in every artefact case)"],
 		subs: vec![
 			prop_sub("artefacts", 12_500, 150_000, || {
@@ -723,6 +809,7 @@ pub fn def() -> PropertyDef {
 					.boxed()
 			}, check_error_paths),
 			prop_sub("cli-failures", 420, 3_000, cli_fail_case, check_cli_failure),
+			prop_sub("process-output", 160, 1_600, || proptest::collection::vec(gen::key_spec(), 8..20).prop_map(|keys| ProcessOutputCase { keys }).boxed(), check_process_output),
 		],
 	}
 }
